@@ -142,6 +142,37 @@ class RealCanon:
         line = f"state {sh} {fields[2]} {fields[3]} {fields[4]} reasons=[{canon}] fns={fns}"
         return line, (sh, reasons)
 
+def find_new_reason(reasons, new_reasons, msg):
+    """a reason that is new in some shared state and carries this message"""
+    found = None
+    for sh, rs in new_reasons.items():
+        old = reasons.get(sh, [])
+        for (k, m) in rs[len(old):]:
+            if m == msg:
+                found = (k, m)
+    return found
+
+def is_teardown_msg(msg, reasons):
+    if msg == CLONES_ALIVE or msg.startswith(WRONG_THREAD):
+        return True
+    for sh, rs in reasons.items():
+        if rs and msg == '\n'.join(m for _, m in rs):
+            return True
+    return all(guess_kind(l) in ('FailedVerification', 'MockNeverCalled') for l in msg.split('\n'))
+
+def canon_teardown_msg(msg, reasons):
+    if msg == CLONES_ALIVE:
+        return 'teardown clones-alive'
+    if msg.startswith(WRONG_THREAD):
+        return 'teardown wrong-thread'
+    if msg.startswith('Called verify() on a cloned instance') or msg.startswith('Called no_verify_on_drop() on a cloned instance'):
+        return 'panic-on-clone'
+    for sh, rs in reasons.items():
+        if rs and msg == '\n'.join(m for _, m in rs):
+            return f"teardown errs {len(rs)} [" + ' | '.join(canon_error(k, m) for k, m in rs) + "]"
+    lines = msg.split('\n')
+    return f"teardown errs {len(lines)} [" + ' | '.join(canon_error(guess_kind(l), l) for l in lines) + "]"
+
 def canon_scenario(real_lines):
     """real_lines: list of raw lines of one scenario (without the scenario/end markers).
     Returns the list of canonical lines."""
@@ -179,41 +210,38 @@ def canon_scenario(real_lines):
                 out.append(f"call user-panic log=[{log}]")
             else:
                 msg = unesc(ev[2])
-                # find a reason that is new in some shared state and carries this message
-                found = None
-                for sh, rs in new_reasons.items():
-                    old = reasons.get(sh, [])
-                    for (k, m) in rs[len(old):]:
-                        if m == msg:
-                            found = (k, m)
+                found = find_new_reason(reasons, new_reasons, msg)
+                if not found and any(' dead' in x for x in new_states) and guess_kind(msg) not in ('Unknown', 'FailedVerification', 'MockNeverCalled'):
+                    found = (guess_kind(msg), msg)
                 if found:
                     out.append(f"call mock-panic {canon_error(*found)} log=[{log}]")
+                elif is_teardown_msg(msg, reasons):
+                    # a by-value call whose instance is verified when it is dropped after returning
+                    out.append(f"call {canon_teardown_msg(msg, reasons)} log=[{log}]")
                 else:
                     out.append(f"call other-panic {msg!r} log=[{log}]")
         elif tag == 'ok':
             out.append('ok')
+        elif tag == 'unwound':
+            log = ev[3] if len(ev) > 3 else ''
+            if ev[1] == 'user':
+                out.append(f"unwound user log=[{log}]")
+            elif ev[1] == 'panic':
+                msg = unesc(ev[2])
+                found = find_new_reason(reasons, new_reasons, msg)
+                if not found and any(' dead' in x for x in new_states) and guess_kind(msg) not in ('Unknown', 'FailedVerification', 'MockNeverCalled'):
+                    found = (guess_kind(msg), msg)     # the mock is gone: no snapshot to look the error up in
+                if found:
+                    out.append(f"unwound mock-panic {canon_error(*found)} log=[{log}]")
+                else:
+                    out.append(f"unwound other-panic {msg!r} log=[{log}]")
+            else:
+                out.append('unwound ' + ' '.join(ev[1:]))
         elif tag == 'teardown':
             if ev[1] == 'ok':
                 out.append('teardown ok')
             elif ev[1] == 'panic':
-                msg = unesc(ev[2])
-                if msg == CLONES_ALIVE:
-                    out.append('teardown clones-alive')
-                elif msg.startswith(WRONG_THREAD):
-                    out.append('teardown wrong-thread')
-                elif msg.startswith('Called verify() on a cloned instance') or msg.startswith('Called no_verify_on_drop() on a cloned instance'):
-                    out.append('panic-on-clone')
-                else:
-                    # forwarded reasons?
-                    done = False
-                    for sh, rs in reasons.items():
-                        if rs and msg == '\n'.join(m for _, m in rs):
-                            out.append(f"teardown errs {len(rs)} [" + ' | '.join(canon_error(k, m) for k, m in rs) + "]")
-                            done = True
-                            break
-                    if not done:
-                        lines = msg.split('\n')
-                        out.append(f"teardown errs {len(lines)} [" + ' | '.join(canon_error(guess_kind(l), l) for l in lines) + "]")
+                out.append(canon_teardown_msg(unesc(ev[2]), reasons))
             else:
                 out.append('teardown ' + ' '.join(ev[1:]))
         elif tag == 'exit':
@@ -237,7 +265,7 @@ def canon_model_line(line):
 
 _ORDER_RE = re.compile(r'(CallOrderNotMatchedForMockFn \S+) order=\d+ (expected=(?!none))')
 
-_ERRS_RE = re.compile(r'^(teardown errs \d+|exit [01]) \[(.*)\]\s*$')
+_ERRS_RE = re.compile(r'^((?:call )?teardown errs \d+|exit [01]) \[(.*?)\](\s*log=\[.*\])?\s*$')
 
 def normalise(line):
     """shared normalisation applied to both sides"""
@@ -249,7 +277,7 @@ def normalise(line):
             # the method table is a BTreeMap<TypeId, _>: methods come out in an arbitrary order,
             # the lines of one method keep their order
             items = sorted(items, key=lambda i: i.split(' ')[1])
-            line = f"{m.group(1)} [{' | '.join(items)}]"
+            line = f"{m.group(1)} [{' | '.join(items)}]{m.group(3) or ''}"
     return line.rstrip()
 
 def split_scenarios(text):
